@@ -76,8 +76,10 @@ PARSE = (" Source-level tie: the parser / checksum / to_bytes() control logic is
 TYP = (" Source-level tie: Item / Padding / CH pack and unpack and the Fields.pack / Fields.unpack loops of types.py are translated from the Python AST on every run "
        "(tools/pysrc2lean_types.py -> Gen/SrcTypes.lean) and proved equal to the model's Kind.pack/unpack and Table.encode/decode (Proofs/SrcEquiv/Types; TransferTypes); "
        "the field tables themselves are regenerated by tools/extract.py.")
-SRC = {'C07': TYP, 'C08': TYP, 'C04': SRV, 'C05': SRV, 'C06': SRV, 'C10': SRV, 'C12': SRV, 'C13': CFG, 'C14': CFG,
-       'C01': PARSE, 'C02': PARSE, 'C03': PARSE, 'C09': PARSE, 'C11': PARSE, 'C15': PARSE, 'C16': PARSE, 'C18': PARSE}
+TTY = (" Source-level tie: scan / _receive / _transmit / _flush_input / _recover of server_tty.py are translated from the Python AST on every run "
+       "(tools/pysrc2lean_tty.py -> Gen/SrcTty.lean) and proved equal to the model (Proofs/SrcEquiv/Tty; TransferTty), on top of the parser translation.")
+SRC = {'C07': TYP, 'C08': TYP, 'C04': SRV, 'C05': SRV, 'C06': SRV, 'C10': SRV, 'C12': SRV + TTY, 'C13': CFG, 'C14': CFG,
+       'C01': PARSE, 'C02': PARSE, 'C03': PARSE, 'C09': PARSE, 'C11': PARSE, 'C15': PARSE, 'C16': PARSE, 'C18': PARSE + TTY}
 SRCTECH = ' + source-level translation (Python AST -> Lean) proved equal to the model'
 
 checks = []
